@@ -39,7 +39,7 @@ def rdbg(vm, v):
     if isinstance(v, Ref): v = vm.ref_get(v)
     if isinstance(v, bool): return 'true' if v else 'false'
     if isinstance(v, int): return str(v)
-    if isinstance(v, BStr): return '"' + v.concrete().replace('\\', '\\\\').replace('"', '\\"') + '"'
+    if isinstance(v, BStr): return '"' + v.concrete().replace('\\', '\\\\').replace('"', '\\"').replace('\n', '\\n').replace('\t', '\\t') + '"'
     if isinstance(v, SymStr): return '"' + zstr(z3.simplify(v.term)) + '"'
     if isinstance(v, HList): return '[' + ', '.join(rdbg(vm, x) for x in v.items) + ']'
     if isinstance(v, SliceRef): return '[' + ', '.join(rdbg(vm, x) for x in vm.ref_get(v.ref).items[v.start:v.end]) + ']'
@@ -175,6 +175,25 @@ def vm_list():
         out.append('all_equal ' + rdbg(vm, T(vm, '*', 'Itertools', 'all_equal', L(a))))
         out.append('sorted ' + lst(T(vm, '*', 'Itertools', 'sorted', L(a[::-1]))))
         out.append('join ' + rdbg(vm, T(vm, '*', 'Itertools', 'join', L([bstr_from_py(f's{x}') for x in a]), bstr_from_py('-'))))
+    from .std_str import rust_fmt_f64, rust_parse_f64
+    for x in [0.0, -0.0, 1.0, -1.5, 0.1, 0.1 + 0.2, 1e21, 1e-7, 123456789012345680000.0, 5e-324, 1.7976931348623157e308, 9007199254740993.0, 1e15, 1e16, 0.000001, 1234.5678, float('nan'), float('inf'), -float('inf'), 2.5e-10, 4.35, 100.0, 1e22, 1e23]:
+        out.append('display ' + rust_fmt_f64(x))
+    for t in ["1", "-1", "+1", "1.5", ".5", "5.", "1e3", "1E3", "1e+3", "1e-3", " 1", "1 ", "", ".", "-", "e5", "1e", "inf", "-inf", "infinity", "Infinity", "nan", "NaN", "-nan", "0x10", "1_000", "1.2.3", "--1", "1e400", "1e-400", "00012", "-.5e1", "\u0661"]:
+        v = rust_parse_f64(t)
+        out.append('parse ' + ('None' if v is None else 'Some("NaN")' if v != v else f'Some("{bits(v)}")'))
+    def lstr(it): return '[' + ', '.join(rdbg(vm, x) for x in std_iter.drain(vm, it)) + ']'
+    def optn(r): return 'None' if r.variant == 0 else f'Some({rdbg(vm, r.fields[0])})'
+    for s_ in ["", "abc", "a,b,,c", "  x y  ", "héllo", "aXXbXXXc", "line1\nline2\n", "a\tb c"]:
+        for p_ in ["", ",", "XX", "l", " "]:
+            if p_: out.append('split ' + lstr(P(vm, '<impl str>::split', S_(s_), S_(p_))))
+            out.append('find ' + optn(P(vm, '<impl str>::find', S_(s_), S_(p_))) + ' ' + optn(P(vm, '<impl str>::rfind', S_(s_), S_(p_))))
+            out.append('strip ' + optn(P(vm, '<impl str>::strip_prefix', S_(s_), S_(p_))) + ' ' + optn(P(vm, '<impl str>::strip_suffix', S_(s_), S_(p_))))
+            out.append('contains ' + ' '.join(rdbg(vm, P(vm, f'<impl str>::{m}', S_(s_), S_(p_))) for m in ('contains', 'starts_with', 'ends_with')))
+            out.append('split_once ' + optn(P(vm, '<impl str>::split_once', S_(s_), S_(p_))))
+        out.append('trim ' + ' '.join(rdbg(vm, P(vm, f'<impl str>::{m}', S_(s_))) for m in ('trim', 'trim_start', 'trim_end')))
+        out.append('case ' + ' '.join(rdbg(vm, P(vm, f'<impl str>::{m}', S_(s_))) for m in ('to_lowercase', 'to_uppercase', 'to_ascii_uppercase')))
+        out.append('lines ' + lstr(P(vm, '<impl str>::lines', S_(s_))))
+        out.append('chars ' + str(len(std_iter.drain(vm, P(vm, '<impl str>::chars', S_(s_))))) + ' ' + str(P(vm, '<impl str>::len', S_(s_))))
     r, e = std.ok(3), std.err(4)
     inc = HostFn(lambda vm_, x: x + 1); is3 = HostFn(lambda vm_, x: x == 3); is5 = HostFn(lambda vm_, x: x == 5)
     out.append('result ' + ' '.join(rdbg(vm, x) for x in [P(vm, 'Result::and', r, e), P(vm, 'Result::and', e, r), P(vm, 'Result::or', r, e), P(vm, 'Result::or', e, r),
